@@ -1157,9 +1157,30 @@ class Ex:
     def st_If(self, s, fr):
         c = self.eval_cond(s.test, fr)
         if self.branch(c, f"if@{_ord(fr, s)}"):
+            self._refine(s.test, True, fr)
             self.exec_block(s.body, fr)
         else:
+            self._refine(s.test, False, fr)
             self.exec_block(s.orelse, fr)
+
+    def _refine(self, test, outcome, fr):
+        """After `if x:` / `if not x:` / `if x is (not) None:` on a local holding an Optional, narrow the local."""
+        neg = False
+        while isinstance(test, ast.UnaryOp) and isinstance(test.op, ast.Not):
+            test, neg = test.operand, not neg
+        truthy = outcome != neg
+        name = None
+        if isinstance(test, ast.Name):
+            name, known_some = test.id, truthy
+        elif (isinstance(test, ast.Compare) and len(test.ops) == 1 and isinstance(test.left, ast.Name)
+              and isinstance(test.comparators[0], ast.Constant) and test.comparators[0].value is None):
+            name = test.left.id
+            known_some = truthy if isinstance(test.ops[0], ast.IsNot) else (not truthy if isinstance(test.ops[0], ast.Is) else False)
+        if name is None or not known_some or name not in fr.locals:
+            return
+        v = fr.locals[name]
+        if is_sym(v) and v.ty.kind == "opt":
+            fr.locals[name] = _wrap_field(v.ty.inner, v.ty.val(v.t))      # a refinement of what is known, not a write
 
     def st_Raise(self, s, fr):
         if s.exc is None:
@@ -1629,6 +1650,10 @@ class Ex:
             v = getattr(obj, name)
         except AttributeError:
             self.raise_(AttributeError, name)
+        if isinstance(v, types.MethodType):
+            clo = self.wrap_real(v.__func__, type(obj))
+            if clo is not None:
+                return Bound(obj, clo, name)      # a method of a repository class on a concrete instance
         if callable(v) and not isinstance(v, type):
             return Bound(obj, None, name)
         return v
